@@ -29,10 +29,13 @@ import (
 func init() { common.Register("activation", Run) }
 
 type op struct {
-	T    string `json:"t"` // "rec" | "probe"
+	T    string `json:"t"` // "rec" | "probe" | "cold"
 	Name string `json:"name"`
 	R    int64  `json:"r"`
 	By   string `json:"by"`
+	// probe: "same" = looked up in the state context of the previous probe (several gated decisions of one
+	// transaction, as storagesc makes for demeter and electra), otherwise a new transaction's context
+	Ctx string `json:"ctx"`
 }
 
 type behaviour struct {
@@ -40,8 +43,9 @@ type behaviour struct {
 	Ops []op   `json:"ops"`
 }
 
-// real fork names: f1 is a fork that gates real code, f2 is never recorded
-var realName = map[string]string{"f1": "demeter", "f2": "verif_never_recorded"}
+// real fork names: f1 is a fork that gates real code, f2 is never recorded, f3 is a second real fork
+// (recorded at another round than f1)
+var realName = map[string]string{"f1": "demeter", "f2": "verif_never_recorded", "f3": "electra"}
 
 func permEq(a, b []int) bool { return fmt.Sprint(a) == fmt.Sprint(b) }
 
@@ -92,13 +96,34 @@ func Run(a common.Args) {
 		rc.TraceID = id - 1
 		rc.Reset(rec.M{"family": "activation", "id": id, "seed": a.Seed, "behaviour": b, "base": strconv.FormatInt(base, 10)},
 			rec.M{"base_class": map[int64]string{0: "zero", 1000: "small", 1 << 40: "large"}[base]})
+		// the state context of the running "transaction" of probes, its cache and its round
+		var pctx cstate.StateContextI
+		var ptc *statecache.TransactionCache
+		var pround int64
+		endTxn := func() {
+			if ptc != nil {
+				ptc.Commit() // the transaction succeeded: what it cached goes to the block's cache
+			}
+			pctx, ptc = nil, nil
+		}
 		for _, o := range b.Ops {
+			if o.T == "cold" {
+				// the block is sealed and the node restarts: the next block is executed on an EMPTY state
+				// cache, every lookup goes down to the MPT
+				endTxn()
+				w.EndBlock()
+				w.ColdCache()
+				w.BeginBlock()
+				rc.Emit(rec.M{"ev": "Cold"}, "cold", false)
+				continue
+			}
 			name := realName[o.Name]
 			if name == "" {
 				rec.Fatal("activation: unknown fork name %q", o.Name)
 			}
 			switch o.T {
 			case "rec":
+				endTxn()
 				from := w.Owner
 				if o.By != "owner" {
 					from = w.Clients[0]
@@ -112,11 +137,20 @@ func Run(a common.Args) {
 				rc.Emit(rec.M{"ev": "Record", "name": o.Name, "round": o.R, "by": o.By, "res": cls, "class": res.Class},
 					"rec/"+o.By+"/"+cls, cls == "ok")
 			case "probe":
-				blk := block.Provider().(*block.Block)
-				blk.Round = base + o.R
-				blk.MinerID = w.Miners[0].ID
-				txn := &transaction.Transaction{}
-				ctx := w.Chain.NewStateContext(blk, chain.CreateTxnMPT(w.CurState, statecache.NewTransactionCache(w.CurCache)), txn, nil)
+				ctxKind := "new"
+				if o.Ctx == "same" && pctx != nil && pround == o.R {
+					ctxKind = "same"
+				} else {
+					endTxn()
+					blk := block.Provider().(*block.Block)
+					blk.Round = base + o.R
+					blk.MinerID = w.Miners[0].ID
+					txn := &transaction.Transaction{}
+					ptc = statecache.NewTransactionCache(w.CurCache)
+					pctx = w.Chain.NewStateContext(blk, chain.CreateTxnMPT(w.CurState, ptc), txn, nil)
+					pround = o.R
+				}
+				ctx := pctx
 				branch := "none"
 				err := cstate.WithActivation(ctx, name,
 					func() error { branch = "before"; return nil },
@@ -147,12 +181,13 @@ func Run(a common.Args) {
 						gated = "other"
 					}
 				}
-				rc.Emit(rec.M{"ev": "Probe", "name": o.Name, "round": o.R, "branch": branch, "known": gerr == nil, "gated": gated},
+				rc.Emit(rec.M{"ev": "Probe", "name": o.Name, "round": o.R, "branch": branch, "known": gerr == nil, "gated": gated, "ctx": ctxKind},
 					fmt.Sprintf("probe/%s/known=%v/gated=%s", branch, gerr == nil, gated), true)
 			default:
 				rec.Fatal("activation: unknown op %q", o.T)
 			}
 		}
+		endTxn()
 		w.EndBlock()
 	}
 }
